@@ -415,6 +415,7 @@ pub fn cases(args: &[String]) {
         v["index"] = json!(i);
         out.push(v);
     }
+    crate::util::wd_pause();
     println!("{}", json!({ "cases": out }));
 }
 
@@ -638,6 +639,23 @@ pub fn props(args: &[String]) {
         }
         sets.push((m, items));
     }
+    // sizes suggested by the driver (new literals of a changed source file): signature lengths around them, and a
+    // set dominated by one heavy item (which then has to fill almost every position itself)
+    // large signature lengths that are not powers of two (rare paths of the slot sampling show only there)
+    for (mbig, nb) in [(100_003usize, 3usize), (30_011, 5)] {
+        let items: Vec<(u64, f64)> = (0..nb).map(|_| (rng.next_u64() >> 8, 1.0 + rng.unit())).collect();
+        sets.push((mbig, items));
+    }
+    let xs = crate::util::extra_sizes();
+    for t in 0..(if xs.is_empty() { 0 } else { 10 }) {
+        if let Some(v) = crate::util::near_size(&mut rng, &xs, 300_000) {
+            let m = (v as usize).max(2);
+            let nitems = [2usize, 30, 100][t % 3];
+            let mut items: Vec<(u64, f64)> = (0..nitems).map(|_| (rng.next_u64() >> 8, 1.0)).collect();
+            if t % 2 == 0 { items[0].1 = 1e6; }
+            sets.push((m, items));
+        }
+    }
     for (m, items) in sets {
         tried += 1;
         let r = catch_unwind(AssertUnwindSafe(|| check_set(&mut rng, m, &items)));
@@ -659,6 +677,7 @@ pub fn props(args: &[String]) {
             }
         }
     }
+    crate::util::wd_pause();
     println!("{}", json!({"tried": tried, "found": found}));
 }
 
@@ -670,6 +689,7 @@ pub fn props_replay(args: &[String]) {
         .map(|x| (x[0].as_u64().unwrap(), f64::from_bits(x[1].as_u64().unwrap()))).collect();
     let mut rng = SplitMix64::new(arg_u64(args, "--seed", 1));
     let bad = check_set(&mut rng, m, &items);
+    crate::util::wd_pause();
     println!("{}", json!({"violations": bad.iter().map(|(k, d, _)| json!({"key": k, "text": d})).collect::<Vec<_>>(),
         "sig3": sig3(m, &items).0, "sig3a": sig3a(m, &[items.clone()]).0, "sig2": sig2(m, &items).0}));
 }
@@ -770,5 +790,6 @@ pub fn mc(args: &[String]) {
             }
         }
     }
+    crate::util::wd_pause();
     println!("{}", json!({"found": found}));
 }
